@@ -43,15 +43,30 @@ def rule_generator(rep: Report, rid="C11.gen") -> None:
     selft = ("param", fi.params()[0])
     cnt = ("attr", selft, N.ID_COUNTER)
     kw = dict(file=fi.file, line=fi.node.lineno, function=q)
-    rep.eq(rid, "get_next_id returns the counter's value before the increment, as a string", ("call", "str", (cnt,), ()), rv, **kw)
-    new = st.ext.get((selft, N.ID_COUNTER)) if st else None
-    sets = [(n, c) for n, c in nf.iter_nodes(tree) if n[0] == "setattr" and n[2] == N.ID_COUNTER]
-    rep.ob(rid, "get_next_id increments the counter by one on every call", new is not None and lin_eq(new, ("binop", "Add", cnt, const(1))) and len(sets) == 1
-           and not nf.guards_in_ctx(sets[0][1]), **kw, expected="self._id_counter += 1", found=fmt(new, I) if new else None)
     I2 = new_interp()
     fi2 = I2.facts.func(f"{GQ}.__init__")
     tree2, rv2, st2 = I2.run(fi2.qualname)
-    rep.eq(rid, "a fresh generator starts at 0", const(0), st2.ext.get((("param", fi2.params()[0]), N.ID_COUNTER)), file=fi2.file, line=fi2.node.lineno, function=fi2.qualname)
+    start = st2.ext.get((("param", fi2.params()[0]), N.ID_COUNTER)) if st2 else None
+    library_counter = False
+    if start is not None and start[0] == "call" and start[1] == "itertools.count":
+        # the counter is the library's: itertools.count(0, 1) advanced by next() - the value before the step, then one more
+        kws = dict(start[3]) if len(start) > 3 else {}
+        a0 = start[2][0] if len(start[2]) > 0 else kws.get("start", const(0))
+        a1 = start[2][1] if len(start[2]) > 1 else kws.get("step", const(1))
+        library_counter = True
+        nexts = [(n, c) for n, c in nf.iter_nodes(tree) if n[0] == "extcall" and n[1] == "next"]
+        rep.eq(rid, "get_next_id returns the counter's value before the increment, as a string", ("call", "str", (("call", "next", (cnt,), ()),), ()), rv, **kw)
+        rep.ob(rid, "get_next_id increments the counter by one on every call", is_const(a1, 1) and len(nexts) == 1 and not nf.guards_in_ctx(nexts[0][1])
+               and not [n for n, c in nf.iter_nodes(tree) if n[0] == "setattr" and n[2] == N.ID_COUNTER], **kw,
+               expected="one unconditional next() on itertools.count(step=1)", found=f"{len(nexts)} next() call(s), step {fmt(a1, I)}")
+        rep.eq(rid, "a fresh generator starts at 0", const(0), a0, file=fi2.file, line=fi2.node.lineno, function=fi2.qualname)
+    else:
+        rep.eq(rid, "get_next_id returns the counter's value before the increment, as a string", ("call", "str", (cnt,), ()), rv, **kw)
+        new = st.ext.get((selft, N.ID_COUNTER)) if st else None
+        sets = [(n, c) for n, c in nf.iter_nodes(tree) if n[0] == "setattr" and n[2] == N.ID_COUNTER]
+        rep.ob(rid, "get_next_id increments the counter by one on every call", new is not None and lin_eq(new, ("binop", "Add", cnt, const(1))) and len(sets) == 1
+               and not nf.guards_in_ctx(sets[0][1]), **kw, expected="self._id_counter += 1", found=fmt(new, I) if new else None)
+        rep.eq(rid, "a fresh generator starts at 0", const(0), start, file=fi2.file, line=fi2.node.lineno, function=fi2.qualname)
     # writers of the counter, of id_generator attributes
     sites = 0
     gen_cls = I.facts.cls(GQ)
@@ -73,6 +88,11 @@ def rule_generator(rep: Report, rid="C11.gen") -> None:
                 changed = True
     for f in _pkg_functions():
         for n in ast.walk(f.node):
+            if library_counter and isinstance(n, ast.Attribute) and n.attr == N.ID_COUNTER and isinstance(n.ctx, ast.Load):
+                # a library counter is advanced by whoever gets hold of it: every read belongs to the generator's own methods
+                sites += 1
+                rep.ob(rid, "the id counter is read (and so advanced) only by the generator's own get_next_id", f.qualname in allowed, file=f.file, line=n.lineno,
+                       function=f.qualname, expected=sorted(allowed), found=f.qualname)
             if isinstance(n, ast.Attribute) and n.attr == N.ID_COUNTER and isinstance(n.ctx, (ast.Store, ast.Del)):
                 sites += 1
                 rep.ob(rid, "the id counter is written only by the generator's constructor and get_next_id (never rewound or reset)",
@@ -289,6 +309,23 @@ def _stateful_instance(fi, v):
 MEMO_DECORATORS = ("lru_cache", "cache", "cached_property")
 
 
+def _annotation_alternatives(a):
+    """the alternatives of ``X | None`` / ``Optional[X]`` / ``Union[X, Y]`` (string annotations parsed)"""
+    if isinstance(a, ast.Constant) and isinstance(a.value, str):
+        try:
+            a = ast.parse(a.value, mode="eval").body
+        except SyntaxError:
+            return []
+    if isinstance(a, ast.BinOp) and isinstance(a.op, ast.BitOr):
+        return _annotation_alternatives(a.left) + _annotation_alternatives(a.right)
+    if isinstance(a, ast.Subscript):
+        hn = a.value.attr if isinstance(a.value, ast.Attribute) else getattr(a.value, "id", "")
+        if hn in ("Optional", "Union", "Annotated", "Final"):
+            sl = a.slice.elts if isinstance(a.slice, ast.Tuple) else [a.slice]
+            return [y for x in (sl[:1] if hn in ("Annotated", "Final") else sl) for y in _annotation_alternatives(x)]
+    return [a]
+
+
 def _decorator_name(d):
     if isinstance(d, ast.Call):
         d = d.func
@@ -322,6 +359,67 @@ def rule_memo(rep: Report, rid="C15.memo") -> None:
         for x in ast.walk(fi.node):
             if isinstance(x, ast.Attribute) and isinstance(x.ctx, ast.Load) and isinstance(x.value, ast.Name) and x.value.id in ps and x.attr in late:
                 stale.append(f"{x.value.id}.{x.attr} (line {x.lineno})")
+        if stale and "cached_property" in memo and fi.cls is not None:
+            # a remembered value may depend on attributes that change later when every function that stores one of them also
+            # drops the remembered value afterwards (``self.__dict__.pop(name, None)``, ``del self.__dict__[name]``, ``del self.name``,
+            # at the function's top level, after the last such store) - the next read computes it again
+            attrs = {x.attr for x in ast.walk(fi.node) if isinstance(x, ast.Attribute) and isinstance(x.ctx, ast.Load) and isinstance(x.value, ast.Name)
+                     and x.value.id in ps and x.attr in late}
+            # only direct stores through ``self`` in the class (and its subclasses) are understood; anything else keeps the verdict
+            understood = True
+            for other in _pkg_functions():
+                for x in ast.walk(other.node):
+                    hit = None
+                    if isinstance(x, ast.Attribute) and isinstance(x.ctx, (ast.Store, ast.Del)) and x.attr in attrs:
+                        hit = x
+                    if isinstance(x, ast.Call) and isinstance(x.func, ast.Attribute) and x.func.attr in Interp.MUTATORS and isinstance(x.func.value, ast.Attribute) \
+                            and x.func.value.attr in attrs:
+                        hit = x.func.value
+                    if hit is None or other.name in ("__init__", "__new__", "__post_init__"):
+                        continue
+                    me = other.params()[0] if other.params() and other.cls is not None else None
+                    in_family = other.cls is not None and (fi.cls in other.cls.mro() or other.cls in fi.cls.mro())
+                    if not (in_family and isinstance(hit.value, ast.Name) and hit.value.id == me):
+                        understood = False
+                        continue
+                    last_store = max(getattr(y, "lineno", 0) for y in ast.walk(other.node) if isinstance(y, ast.Attribute) and y.attr in attrs
+                                     and isinstance(y.ctx, (ast.Store, ast.Del)))
+                    dropped = False
+                    for st_ in other.node.body:
+                        if st_.lineno <= last_store:
+                            continue
+                        for y in ast.walk(st_):
+                            if isinstance(y, ast.Call) and isinstance(y.func, ast.Attribute) and y.func.attr == "pop" and isinstance(y.func.value, ast.Attribute) \
+                                    and y.func.value.attr == "__dict__" and isinstance(y.func.value.value, ast.Name) and y.func.value.value.id == me \
+                                    and y.args and isinstance(y.args[0], ast.Constant) and y.args[0].value == fi.name and isinstance(st_, ast.Expr):
+                                dropped = True
+                            if isinstance(st_, ast.Delete) and any(
+                                    (isinstance(t, ast.Subscript) and isinstance(t.value, ast.Attribute) and t.value.attr == "__dict__" and isinstance(t.slice, ast.Constant)
+                                     and t.slice.value == fi.name) or (isinstance(t, ast.Attribute) and t.attr == fi.name and isinstance(t.value, ast.Name) and t.value.id == me)
+                                    for t in st_.targets):
+                                # (``del`` of a value that was never computed raises: only the pop form is total - left to C01)
+                                dropped = True
+                    if not dropped:
+                        understood = False
+            if understood:
+                stale = []
+        # the cache hashes every argument: a parameter that takes a dictionary / list / set (by its annotation, TypedDicts of
+        # the package included) makes each such call a TypeError
+        unhash = []
+        a_ = fi.node.args
+        for p_ in a_.posonlyargs + a_.args + a_.kwonlyargs:
+            if p_.annotation is None or (fi.cls is not None and not fi.is_static and p_ is (a_.posonlyargs + a_.args)[0]):
+                continue
+            for alt in _annotation_alternatives(p_.annotation):
+                head = alt.value if isinstance(alt, ast.Subscript) else alt
+                hn = head.attr if isinstance(head, ast.Attribute) else (head.id if isinstance(head, ast.Name) else "")
+                c_ = f.resolve_class(fi.module, hn) if hn else None
+                if hn in ("dict", "list", "set", "Dict", "List", "Set", "defaultdict", "DefaultDict", "deque", "MutableMapping", "MutableSequence", "MutableSet", "bytearray") \
+                        or (c_ is not None and (c_.is_typeddict or any(x.is_typeddict for x in c_.mro()))):
+                    unhash.append(f"{p_.arg}: {unparse(p_.annotation)}")
+        if "cached_property" not in memo:
+            rep.ob(rid, f"memoised {fi.qualname} takes hashable arguments only (the cache hashes them at every call)", not unhash, file=fi.file, line=fi.node.lineno,
+                   function=fi.qualname, expected="str / int / tuple / None parameters", found=unhash or "no unhashable parameter type")
         shared = [f"returns a {c} (line {x.lineno})" for x in ast.walk(fi.node) if isinstance(x, ast.Return) and x.value is not None
                   for c in [_stateful_instance(fi, x.value)] if c]
         rep.ob(rid, f"memoised {fi.qualname} hands out no object that changes after construction (every caller would get the same one)", not shared, file=fi.file,
